@@ -90,6 +90,10 @@ def file_bytes(ext, payload, with_chart, key_only=False, unique=False, variant=N
             body += b"#NOTEDATA:;\n#STEPSTYPE:dance-single;\n#DESCRIPTION:" + payload + b";\n#NOTES:\n0000\n1{2x\\:4}00\n;\n"
         else:
             body += b"#NOTES:\n     dance-single:\n     " + payload + b":\n     Easy:\n     1:\n     0,0:\n0000\n1{2x\\:4}00\n;\n"
+    if variant in ("big70k", "big1m"):
+        # many ordinary parameters: a file of about 70 KB / 1.1 MB (beyond 65536 characters / one MiB)
+        n = 1400 if variant == "big70k" else 22000
+        body += b"".join(b"#P%05d:%s;\n" % (i, b"v" * 40) for i in range(n))
     if variant == "longlist":
         # one-line lists of 7, 11 and 90 entries (about 90, 150 and 1200 characters)
         body += b"#BPMS:" + X.comma_list(7).encode() + b";\n#STOPS:" + X.comma_list(11).encode() + b";\n#BGCHANGES:" + X.comma_list(90).encode() + b";\n"
